@@ -545,13 +545,43 @@ pub fn run_c09(o: &Opts) -> Report {
     }
     let per = (o.n / 12).max(8);
     for fm in formats() {
-        for v in value_stream(&mut rng, &fm, per, o.thorough) {
+        let g = term_gen_for(&fm, 2, 3);
+        let mut vals = value_stream(&mut rng, &fm, per, o.thorough);
+        for i in 0..8 {
+            let (a, b) = (g.atom(&mut rng), g.atom(&mut rng));
+            let t = match i % 4 {
+                0 => Term::new_instance(a, b),
+                1 => Term::new_property(a, b),
+                2 => Term::new_instance_property(a, b),
+                _ => Term::new_equivalence_retrospective(a, b),
+            };
+            vals.push(if i < 4 { Narsese::Term(t) } else { Narsese::Sentence(gen_sentence(&mut rng, t)) });
+        }
+        for v in vals {
             let text = fm.e.format_narsese(&v);
             if c01_known(fm.e, &v, &text).is_some() {
                 continue;
             }
             let toks = narsese_tokens(fm.e, &v, Sugar::None, &mut rng);
             let canonical = toks.canonical();
+            // the same value written with the derived copulas where it has the desugared shape (no spaces / random spaces)
+            let dtoks = narsese_tokens(fm.e, &v, Sugar::Derived, &mut rng);
+            if dtoks.canonical() != canonical {
+                for policy in [0usize, 2] {
+                    let s = dtoks.join(policy, &mut rng, fm.e.space.parse);
+                    let r = cx.parse_case(&fm, &s);
+                    let lf = real_lexfold(&fm, &s);
+                    cx.rep.evaluations += 1;
+                    cx.rep.hist.add(format!("{}:derived-policy{}:{}", fm.name, policy, pr_tag(&r)));
+                    let known = if policy == 0 && respace_known(&fm, &v) { Some("K3") } else { None };
+                    if canon_pr(&r) != canon_narsese(&v) {
+                        cx.fail("respaced-derived", "re-spaced derived-copula text parses differently (enum parser)", format!("[{}] {:?}", fm.name, s), canon_narsese(&v), canon_pr(&r), known);
+                    }
+                    if canon_pr(&lf) != canon_narsese(&v) {
+                        cx.fail("respaced-derived", "re-spaced derived-copula text parses differently (lexical parse + fold)", format!("[{}] {:?}", fm.name, s), canon_narsese(&v), canon_pr(&lf), known);
+                    }
+                }
+            }
             if canonical != text {
                 cx.fail("respaced", "harness token formatter disagrees with format_narsese (harness defect)", canon_narsese(&v), text.clone(), canonical.clone(), None);
                 continue;
@@ -716,6 +746,41 @@ pub fn run_c10(o: &Opts) -> Report {
             let (la, lb) = (real_lexfold(&fm, &a), real_lexfold(&fm, &b));
             if canon_pr(&la) != canon_pr(&lb) || canon_pr(&la) != canon_pr(&ra) {
                 cx.fail("equations", "documented desugaring equation fails (lexical parse + fold)", format!("[{}] {:?} vs {:?}", fm.name, a, b), canon_pr(&rb), canon_pr(&la), None);
+            }
+        }
+        // several placeholders: the index is the position of the FIRST one, the later ones stay components in order
+        {
+            let c = &e.compound;
+            let ph = e.atom.prefix_placeholder;
+            for (conn, ext) in [(c.connecter_image_extension, true), (c.connecter_image_intension, false)] {
+                for (i1, i2) in [(0usize, 1usize), (0, 3), (1, 2), (1, 3), (2, 3)] {
+                    let mut items: Vec<String> = vec!["A".into(), "B".into()];
+                    let mut want_items = vec![Term::new_word("A"), Term::new_word("B")];
+                    // positions in the final list of 4
+                    let mut full: Vec<Option<usize>> = vec![];
+                    let mut k = 0;
+                    for pos in 0..4 {
+                        if pos == i1 || pos == i2 { full.push(None) } else { full.push(Some(k)); k += 1; }
+                    }
+                    let texts: Vec<String> = full.iter().map(|x| match x { None => ph.to_string(), Some(k) => items[*k].clone() }).collect();
+                    let mut rest: Vec<Term> = vec![];
+                    for (pos, x) in full.iter().enumerate() {
+                        if pos == i1 { continue; }
+                        rest.push(match x { None => Term::Placeholder, Some(k) => want_items[*k].clone() });
+                    }
+                    items.clear(); want_items.clear();
+                    let s = format!("{}{}{} {}{}", c.brackets.0, conn, c.separator, texts.join(&format!("{} ", c.separator)), c.brackets.1);
+                    let want = canon_narsese(&Narsese::Term(if ext { Term::ImageExtension(i1, rest) } else { Term::ImageIntension(i1, rest) }));
+                    let r = cx.parse_case(&fm, &s);
+                    if canon_pr(&r) != want {
+                        cx.fail("image", "image with several placeholders (enum parser)", format!("[{}] {:?}", fm.name, s), want.clone(), canon_pr(&r), None);
+                    }
+                    let lf = real_lexfold(&fm, &s);
+                    cx.rep.evaluations += 1;
+                    if canon_pr(&lf) != want {
+                        cx.fail("image", "image with several placeholders (lexical parse + fold)", format!("[{}] {:?}", fm.name, s), want.clone(), canon_pr(&lf), None);
+                    }
+                }
             }
         }
         // image index = position of the first placeholder; placeholder ignores what follows its prefix
